@@ -246,7 +246,11 @@ def _(c):
     c.call("DefaultRecordBatch.new", returns=Ref("AnyBatchC"), pre=SLICE_OK, raises=["CorruptRecordException"], post=["fresh(result)"],
            note="DefaultRecordBatch.new (under contract): its precondition is the first clause")
     c.modifies("self._pos")
-    c.raises("entry-smaller-than-any-record", "CorruptRecordException")
+    # the cursor condition is the precondition of the next has_next()/next_batch(): a caller may go on after the error
+    # (the fetcher drops the partition's buffer, other callers skip) - an exceptional exit has to leave it intact as well
+    c.raises("entry-smaller-than-any-record", "CorruptRecordException",
+             ensures=[("the-cursor-is-still-inside-the-buffer-and-never-moved-back",
+                       "old(self._pos) <= self._pos and self._pos <= len(self._buffer)")])
     c.ensures("cursor-stays-inside-and-moves-past-a-whole-entry",
               "old(self._pos) <= self._pos and self._pos <= len(self._buffer) and implies(result is not None, self._pos - old(self._pos) >= 26)")
     c.ensures("a-trailing-partial-entry-is-left-alone", "implies(result is None, self._pos == old(self._pos))")
